@@ -5,7 +5,7 @@ import numpy as np
 import z3
 
 from symx.arr import NPProxy, SymArray, fresh
-from symx.core import SB, SC, SV, Explorer, concretize, differs, lift, toc
+from symx.core import SB, SC, SV, Explorer, ShimGap, concretize, differs, lift, toc
 from symx.harness import Tally, to_json
 from symx.twin import World
 
@@ -188,10 +188,16 @@ def replay_mpe(cfg, inputs):
 class SVDStub:
     def __init__(self):
         self.calls = []
+        self.hermitian_claims = []
 
-    def svd(self, M, *a, **k):
+    def svd(self, M, full_matrices=True, compute_uv=True, hermitian=False):
+        """documented contract of np.linalg.svd; `hermitian=True` additionally REQUIRES a Hermitian argument (NumPy then
+        works from the lower triangle only) - recorded so that the harness can demand it"""
+        if not compute_uv or not full_matrices:
+            raise ShimGap("svd stub: only full_matrices=True, compute_uv=True are modelled")
         M = np.asarray(M, dtype=object)
         nr, nc = M.shape
+        self.hermitian_claims.append((M, bool(hermitian)))
         i = len(self.calls)
         U = fresh(f"svdU{i}", (nr, nr), complex_=True)
         S = SymArray(np.array([SV(z3.Real(f"svdS{i}_{q}"), nn=True) for q in range(min(nr, nc))], dtype=object))
@@ -221,6 +227,7 @@ def run_svd(cfg, tier):
         SD = fresh("SD", (nr, nc, nf), complex_=True)
         st["SD"] = SD
         stub.calls.clear()
+        stub.hermitian_claims.clear()
         return tf.SD_svalsvec(SD)
 
     sqrt = z3.Function("uf_sqrt", z3.RealSort(), z3.RealSort())
@@ -234,6 +241,13 @@ def run_svd(cfg, tier):
         if np.shape(S_val) != (nc, nc, nf) or np.shape(S_vec) != (nr, nr, nf) or len(stub.calls) != nf:
             why = f"shapes {np.shape(S_val)} {np.shape(S_vec)} / {len(stub.calls)} SVD calls for {nf} lines"
         else:
+            for M, herm in stub.hermitian_claims:
+                if herm:
+                    # the fast path is only valid if the argument is Hermitian for every input
+                    if M.shape[0] != M.shape[1]:
+                        bad.append(z3.BoolVal(True))
+                    else:
+                        bad += [differs(M[a, b], toc(M[b, a]).conjugate()) for a in range(M.shape[0]) for b in range(M.shape[1])]
             for f in range(nf):
                 M, U, S, V = stub.calls[f]
                 # the SVD is taken of the spectral matrix at line f
